@@ -1203,6 +1203,8 @@ class Suspender(Interrupter):
                 framer.reactivate()
                 return None
 
+            # keep lower frames suspended in case a transition restored full outline
+            framer.change(main.head, main.headHuman)
             return aux
 
 
